@@ -42,7 +42,11 @@ struct Case {
 
 fn decode(tape: &[u32]) -> Case {
     let mut t = Tape::new(tape);
-    let o = GenOpts { max_layers: 3, max_hw: 4, max_c: 2, max_dense: 5, allow_feedback: false, acts: &[ActK::Linear, ActK::Tanh, ActK::Sigmoid, ActK::Leaky], ..GenOpts::default() };
+    // one network in four may contain feedback blocks (no internal skips, mean coupling): the replay then also
+    // models the block's own update - every unrolled copy takes its step with its own optimizer state, then the
+    // copies are re-coupled by their mean
+    let with_blocks = t.chance(1, 4);
+    let o = GenOpts { max_layers: 3, max_hw: 4, max_c: 2, max_dense: 5, allow_feedback: with_blocks, acts: &[ActK::Linear, ActK::Tanh, ActK::Sigmoid, ActK::Leaky], ..GenOpts::default() };
     let mut spec = gen_net(&mut t, &o);
     let obj = [ObjK::MSE, ObjK::AE, ObjK::MAE, ObjK::RMSE, ObjK::BCE, ObjK::KL, ObjK::CE][t.pick(7)];
     if matches!(obj, ObjK::BCE | ObjK::KL | ObjK::CE) {
@@ -87,6 +91,7 @@ fn decode(tape: &[u32]) -> Case {
     }
     if additive {
         // dense -> feedback block with mixed bias settings -> dense, plain SGD, two samples in one group
+        let o = GenOpts { allow_feedback: false, ..o };
         let w = t.usize(1, 4);
         let block = LayerSpec::Feedback {
             layers: vec![
@@ -118,6 +123,34 @@ fn decode(tape: &[u32]) -> Case {
 fn slot_vectors(net: &neurons::network::Network) -> Vec<Vec<Vec<Tensor>>> {
     let mut v = Vec::new();
     for l in net.layers.iter().rev() {
+        if matches!(l, Layer::Feedback(_) | Layer::Maxpool(_)) {
+            v.push(vec![vec![Tensor::single(vec![])]]);
+            continue;
+        }
+        let ps = neurons::verif::layer_params(l);
+        match l {
+            Layer::Dense(_) => {
+                let w = tens::build(&tensor_dims(&ps[0]), &vec![0.0; tens::flat(&ps[0]).len()]);
+                let b = if ps.len() > 1 { Tensor::single(vec![0.0; tens::flat(&ps[1]).len()]) } else { Tensor::single(vec![]) };
+                v.push(vec![vec![w, b]]);
+            }
+            Layer::Convolution(_) | Layer::Deconvolution(_) => {
+                v.push(ps.iter().map(|k| vec![tens::build(&tensor_dims(k), &vec![0.0; tens::flat(k).len()])]).collect());
+            }
+            _ => v.push(vec![vec![Tensor::single(vec![])]]),
+        }
+    }
+    v
+}
+
+/// Slot layout of a feedback block's own optimizer (unrolled layers in reverse order), as `copy_optimizer` builds it.
+fn block_slot_vectors(fb: &neurons::feedback::Feedback) -> Vec<Vec<Vec<Tensor>>> {
+    let mut v = Vec::new();
+    for l in fb.layers.iter().rev() {
+        if matches!(l, Layer::Feedback(_) | Layer::Maxpool(_)) {
+            v.push(vec![vec![Tensor::single(vec![])]]);
+            continue;
+        }
         let ps = neurons::verif::layer_params(l);
         match l {
             Layer::Dense(_) => {
@@ -314,6 +347,15 @@ fn check(case: &Case, ev: &mut CaseEv) -> CheckResult {
     let objf = objective::Function::create(lib_obj(case.obj), None);
     let mut ref_opt = case.kind.create();
     ref_opt.validate(slot_vectors(&worker));
+    let mut block_opts: std::collections::BTreeMap<usize, neurons::optimizer::Optimizer> = std::collections::BTreeMap::new();
+    for (i, l) in worker.layers.iter().enumerate() {
+        if let Layer::Feedback(fb) = l {
+            let mut o = case.kind.create();
+            o.validate(block_slot_vectors(fb));
+            block_opts.insert(i, o);
+            ev.class("replay through a feedback block (per-copy optimizer state, mean re-coupling)");
+        }
+    }
     let mut ref_w: Vec<(PRef, Tensor)> = ps0.clone();
     let nl = spec.layers.len();
     let mut ref_losses: Vec<f32> = Vec::new();
@@ -341,12 +383,50 @@ fn check(case: &Case, ev: &mut CaseEv) -> CheckResult {
             loss_epoch += losses.iter().sum::<f32>() / losses.len() as f32;
             let mut sum = sum.unwrap();
             for ((r, w), (_, gsum)) in ref_w.iter_mut().zip(sum.iter_mut()) {
-                let rev = nl - 1 - r.layer;
-                let (filter, bias) = match &spec.layers[r.layer] {
-                    LayerSpec::Dense { .. } => (0, r.tensor == 1),
-                    _ => (r.tensor, false),
-                };
-                ref_opt.update(rev, filter, bias, epoch, w, gsum);
+                match (&spec.layers[r.layer], r.inner) {
+                    (LayerSpec::Feedback { layers: inner, loops, .. }, Some(j)) => {
+                        // unrolled copy j of the block: its own slot in the block's own optimizer
+                        let total = inner.len() * loops;
+                        let (filter, bias) = match &inner[j % inner.len()] {
+                            LayerSpec::Dense { .. } => (0, r.tensor == 1),
+                            _ => (r.tensor, false),
+                        };
+                        block_opts.get_mut(&r.layer).unwrap().update(total - 1 - j, filter, bias, epoch, w, gsum);
+                    }
+                    (l, _) => {
+                        let rev = nl - 1 - r.layer;
+                        let (filter, bias) = match l {
+                            LayerSpec::Dense { .. } => (0, r.tensor == 1),
+                            _ => (r.tensor, false),
+                        };
+                        ref_opt.update(rev, filter, bias, epoch, w, gsum);
+                    }
+                }
+            }
+            // re-couple the copies of every block layer: mean over the repetitions (summed in order, then divided)
+            for (li, l) in spec.layers.iter().enumerate() {
+                if let LayerSpec::Feedback { layers: inner, loops, .. } = l {
+                    let len = inner.len();
+                    let keys: Vec<(usize, usize)> = ref_w.iter().filter(|(r, _)| r.layer == li && r.inner.map(|j| j < len).unwrap_or(false)).map(|(r, _)| (r.inner.unwrap(), r.tensor)).collect();
+                    for (pos, tensor) in keys {
+                        let copies: Vec<usize> = (0..*loops).map(|c| ref_w.iter().position(|(r, _)| r.layer == li && r.inner == Some(pos + c * len) && r.tensor == tensor).expect("copy")).collect();
+                        let dims = tensor_dims(&ref_w[copies[0]].1);
+                        let mut acc = tens::flat(&ref_w[copies[0]].1);
+                        for c in &copies[1..] {
+                            for (a, b) in acc.iter_mut().zip(tens::flat(&ref_w[*c].1).iter()) {
+                                *a += *b;
+                            }
+                        }
+                        let cnt = *loops as f32;
+                        for a in acc.iter_mut() {
+                            *a /= cnt;
+                        }
+                        let mean = tens::build(&dims, &acc);
+                        for c in &copies {
+                            ref_w[*c].1 = mean.clone();
+                        }
+                    }
+                }
             }
         }
         ref_losses.push(loss_epoch / groups as f32);
@@ -404,7 +484,7 @@ impl Prop for C04 {
         Some(3)
     }
     fn rule(&self) -> String {
-        "tape-decoded training run: 1-3-layer network (dense, convolution, deconvolution, max-pool mixes, no dropout), one of five optimizers with option variants, one of seven objectives (sigmoid head for the probability objectives), N = 1..12 distinct samples (1/8 of the cases: N = 65..140 with B >= 60, i.e. groups beyond the internal 64-sample chunk), B = 1..N+3 (B = 1, B not dividing N, B > N all occur), in 1/6 of the cases the first group's targets equal the initial predictions bit for bit (zero loss and gradient), E = 1..4 epochs, known start weights; one run in four calls learn() twice on the same network (step numbers restart at 1 in every call); one case in eight compares training with and without validation data on networks with dropout layers (weights and training losses must be bit-identical); one case in eight is the additivity sub-check: plain SGD, a dense -> feedback block (mixed bias settings) -> dense network, one group of 2-4 samples must move every parameter by the sum of the single-sample steps. Oracle: replayed reference trainer (groups of B in order, per-sample gradients at the pre-step weights from a never-trained second instance, summed in order, one step of a separately constructed optimizer with step number = epoch, loss = mean over groups of mean per-sample loss); final weights and the loss vector must agree within 1e-4 relative / 1e-6 absolute (bit-identical today). Non-trivial: >= 2 groups, B >= 2 and (B does not divide N or E >= 2). Distinct = (architecture, N, B, E, optimizer, objective).".into()
+        "tape-decoded training run: 1-3-layer network (dense, convolution, deconvolution, max-pool mixes, no dropout; one network in four may contain feedback blocks without internal skips - the replay then gives every unrolled copy its own slot in the block's own optimizer and re-couples the copies by their mean after each step), one of five optimizers with option variants, one of seven objectives (sigmoid head for the probability objectives), N = 1..12 distinct samples (1/8 of the cases: N = 65..140 with B >= 60, i.e. groups beyond the internal 64-sample chunk), B = 1..N+3 (B = 1, B not dividing N, B > N all occur), in 1/6 of the cases the first group's targets equal the initial predictions bit for bit (zero loss and gradient), E = 1..4 epochs, known start weights; one run in four calls learn() twice on the same network (step numbers restart at 1 in every call); one case in eight compares training with and without validation data on networks with dropout layers (weights and training losses must be bit-identical); one case in eight is the additivity sub-check: plain SGD, a dense -> feedback block (mixed bias settings) -> dense network, one group of 2-4 samples must move every parameter by the sum of the single-sample steps. Oracle: replayed reference trainer (groups of B in order, per-sample gradients at the pre-step weights from a never-trained second instance, summed in order, one step of a separately constructed optimizer with step number = epoch, loss = mean over groups of mean per-sample loss); final weights and the loss vector must agree within 1e-4 relative / 1e-6 absolute (bit-identical today). Non-trivial: >= 2 groups, B >= 2 and (B does not divide N or E >= 2). Distinct = (architecture, N, B, E, optimizer, objective).".into()
     }
     fn run_case(&self, tape: &[u32], ev: &mut CaseEv) -> CheckResult {
         check(&decode(tape), ev)
